@@ -30,21 +30,26 @@ def run(chk: Check) -> None:
             subj = norm(n.targets[0])
     chk.ob('DISP-task', call, subj is not None, 'tasks are dispatched on the value stored under TASK_KEY', kind='subject')
     want = {'launch': '_launch', 'continue': '_continue', 'create': '_create'}
-    got: Dict[str, str] = {}
-    for s in call.node.body:
-        if isinstance(s, ast.If) and isinstance(s.test, ast.Compare) and norm(s.test.left) == subj:
-            v = prog.fold(pc, s.test.comparators[0])
-            rets = [r for r in s.body if isinstance(r, ast.Return)]
-            if len(rets) == 1 and isinstance(rets[0].value, ast.Await) and isinstance(rets[0].value.value, ast.Call):
-                c = rets[0].value.value
-                got[v] = last_name(c)
-                ok = [norm(a) for a in c.args] == [call.params[1]] and len(c.keywords) == 1 and c.keywords[0].arg is None and \
-                    isinstance(c.keywords[0].value, ast.Call) and norm(c.keywords[0].value.func) == f'{tparam}.get' and prog.fold(pc, c.keywords[0].value.args[0]) == 'args'
-                chk.ob('DISP-task', call, ok, f'task type {v!r}: the handler is awaited with the communicator and **task[TASK_ARGS]', node=c, kind=f'handler-args:{v}')
+    from ..decisions import dispatch_table
+    cff = chk.ctx.facts.analyse(call)
+    consts = {k: k for k in want}
+    tab = dispatch_table(cff, subj or 'task_type', consts, lambda c: last_name(c) in want.values())
     for k, h in want.items():
-        chk.ob('DISP-task', call, got.get(k) == h, f'task type {k!r} is handled by {h} (got {got.get(k)})', kind=f'dispatch:{k}', expr=k)
-    last = call.node.body[-1]
-    chk.ob('DISP-task', call, isinstance(last, ast.Raise) and 'TaskRejected' in norm(last.exc), 'any other task type is rejected (TaskRejected), not executed as something else', kind='unknown-rejected')
+        outs = tab.get(k, [])
+        got_h = sorted({o[1] for o in outs if o[0] == 'call'} | {o[0] for o in outs if o[0] != 'call'})
+        chk.ob('DISP-task', call, bool(outs) and all(o[0] == 'call' and o[1] == f'self.{h}' and o[6] for o in outs), f'task type {k!r} is handled by {h} and its reply returned (got {got_h})',
+               kind=f'dispatch:{k}', expr=k)
+        for o in outs:
+            if o[0] != 'call':
+                continue
+            kws = dict(o[3])
+            v = kws.get('**', '')
+            ok = list(o[2]) == [call.params[1]] and set(kws) == {'**'} and v.startswith(f'{tparam}.get(') and v.replace('TASK_ARGS', "'args'").replace("process_comms.", '') in (
+                f"{tparam}.get('args', {{}})",)
+            chk.ob('DISP-task', call, ok, f'task type {k!r}: the handler is awaited with the communicator and **task[TASK_ARGS]', node=o[5], kind=f'handler-args:{k}')
+    none = tab.get(None, [])
+    chk.ob('DISP-task', call, bool(none) and all(o[0] == 'raise' and 'TaskRejected' in o[1] for o in none), 'any other task type is rejected (TaskRejected), not executed as something else',
+           kind='unknown-rejected')
     # TaskRejected is kiwipy's
     chk.ob('DISP-task', 'communications.TaskRejected', norm(prog.module('communications').constants.get('TaskRejected')) == 'kiwipy.TaskRejected', 'TaskRejected is the communicator\'s rejection', kind='rejection-type')
 
@@ -58,6 +63,14 @@ def run(chk: Check) -> None:
             keys = [prog.fold(pc, k) for k in d.keys if k is not None]
             if 'task' in keys and 'args' in keys:
                 outer = d
+        from ..rules import Resolver
+        rbf = Resolver(bf)
+        if outer is None or True:
+            # the dictionary RETURNED, with locals (``task_args = {...}``, ``class_id = ...``) spelled out
+            rets_b = [r for r in ast.walk(bf.node) if isinstance(r, ast.Return) and r.value is not None]
+            exp = rbf.expand(rets_b[0].value) if len(rets_b) == 1 else None
+            if isinstance(exp, ast.Dict):
+                outer = exp
         chk.need(outer is not None, f'{body_fn}: message body dict not found')
         items = {prog.fold(pc, k): v for k, v in zip(outer.keys, outer.values)}
         chk.ob('TAB-body-handler', bf, prog.fold(pc, items['task']) == task, f'{body_fn} labels the task {task!r}', kind='task-type')
